@@ -196,7 +196,10 @@ def run_path(I, con, vname, module, cls, fn, params, requires, ensures, raises, 
             cond = raise_terms.get(declared, may_terms.get(declared))
             path.oblige(f"{qual}:raises:{declared}:only_if", cond, note=f"raised at {e.origin}")
             sf.vars['exc'] = SV('exc', (e.exc_cls, e.payload))
-            check_clauses(I, con.ensures_raise.get(declared, {}), sf, frame, f"{qual}:on_raise:{declared}", svs, snap)
+            for k2, v2 in frame.vars.items():
+                sf.vars.setdefault(k2, v2)      # exit-state clauses may mention the function's locals
+            check_clauses(I, con._filter(con.ensures_raise.get(declared, {}), getattr(registry, 'current_prop', None)),
+                          sf, frame, f"{qual}:on_raise:{declared}", svs, snap)
         check_frame(I, con, svs, snap, qual)
         return outcome
     # normal return
@@ -221,7 +224,12 @@ def run_path(I, con, vname, module, cls, fn, params, requires, ensures, raises, 
         ens = dict(ensures)
         ens.update(con.final)
     else:
-        ens = ensures
+        ens = dict(ensures)
+        if con.final:
+            # exit-state clauses of an ordinary function (may mention its locals at the point of return)
+            for k2, v2 in frame.vars.items():
+                sf.vars.setdefault(k2, v2)
+            ens.update(con._filter(con.final, getattr(registry, 'current_prop', None)))
     check_clauses(I, ens, sf, frame, f"{qual}:post", svs, snap)
     check_frame(I, con, svs, snap, qual)
     return outcome
